@@ -145,6 +145,12 @@ fn corrupt_inplace(attrs: &mut Vec<A>, attr: &str, corrupt: &str, as4: bool) {
             }
         }
         "len_plus1" => attrs[idx].data.push(2),
+        "len16" => attrs[idx].data = "2001:db8::1".parse::<std::net::Ipv6Addr>().unwrap().octets().to_vec(),
+        "len32" => {
+            let mut d = "2001:db8::1".parse::<std::net::Ipv6Addr>().unwrap().octets().to_vec();
+            d.extend_from_slice(&"fe80::1".parse::<std::net::Ipv6Addr>().unwrap().octets());
+            attrs[idx].data = d;
+        }
         "flags_opt" => attrs[idx].flags ^= 0x80,
         "flags_trans" => attrs[idx].flags ^= 0x40,
         "value" => {
